@@ -40,6 +40,18 @@ func embedsInterface(n *types.Named) *types.Var {
 			return st.Field(i)
 		}
 	}
+	// a decorator that keeps the wrapped value in a named field: the field's type is an interface that the
+	// struct itself implements (it wraps "one of its own kind" and forwards to it)
+	for i := 0; i < st.NumFields(); i++ {
+		f := st.Field(i)
+		it, isIface := f.Type().Underlying().(*types.Interface)
+		if !isIface || it.NumMethods() == 0 {
+			continue
+		}
+		if types.Implements(types.NewPointer(n), it) || types.Implements(n, it) {
+			return f
+		}
+	}
 	return nil
 }
 
@@ -386,6 +398,10 @@ func ctxBeforeIO(c *core.Ctx) {
 		for _, call := range astx.Calls(fd.Body) {
 			if sel, ok := call.Fun.(*ast.SelectorExpr); ok && (sel.Sel.Name == "Write" || sel.Sel.Name == "Read") {
 				if inner, ok := astx.Unparen(sel.X).(*ast.SelectorExpr); ok && inner.Sel.Name == spec.io {
+					ioCall = call
+				}
+				// by type: the write side of the request pipe, wherever the struct keeps it
+				if spec.io == "requestBodyWriter" && astx.TypeIs(derefType(info.TypeOf(sel.X)), "io", "PipeWriter") {
 					ioCall = call
 				}
 			}
@@ -1033,6 +1049,18 @@ func unaryErrorStatus(c *core.Ctx) {
 		errPaths++
 		var order []string
 		for _, st := range s.Steps {
+			// Content-Type stored directly in the header map (the key constant is canonical)
+			if as, ok := st.(*ast.AssignStmt); ok && len(as.Lhs) == 1 && len(as.Rhs) == 1 {
+				if ie, ok := astx.Unparen(as.Lhs[0]).(*ast.IndexExpr); ok && astx.TypeIs(info.TypeOf(ie.X), "net/http", "Header") {
+					if k, ok := astx.ConstString(info, ie.Index); ok && k == "Content-Type" {
+						if lit, ok := astx.Unparen(as.Rhs[0]).(*ast.CompositeLit); ok && len(lit.Elts) == 1 {
+							if v, ok := astx.ConstString(info, lit.Elts[0]); ok && v == "application/json" {
+								order = append(order, "json")
+							}
+						}
+					}
+				}
+			}
 			for _, call := range astx.Calls(st) {
 				switch {
 				case isIfaceMethodCall(info, call, "ResponseWriter", "WriteHeader"):
